@@ -483,7 +483,8 @@ def run(ctx):
         "protobuf decoding is represented by records of optional fields; phantom selection, transport parameter "
         "parsing, destination-port derivation, GeoIP, the covert policy function (C06) and the liveness probe are "
         "external (universally quantified in the theorems, supplied per case from the running implementation)",
-        "one ingest worker at a time (interleavings of workers are C09's subject)",
+        "one ingest worker at a time (interleavings of workers are C09's subject); reloads happen between messages (a reload "
+        "concurrent with selection is C14's lifecycle lane)",
         "liveness-stack lane: the tester is the one liveness.New builds; only the network probe under it is scripted and the "
         "clock of its caches is moved by shifting the stored times (overlay shim harness/inpkg/c07/liveness_export.go, not in "
         "/repo); lifetimes and advances are whole hours, every step takes one tick of 1/1000 h in model and reference; the "
@@ -498,6 +499,9 @@ def run(ctx):
         "ValidateRegistration / register / getRegistrations / GenerateC2SWrapper by the correspondence run",
         "coq/C07/ModelLive.v (ingestRegistration over a stateful tester; instantiated with coq/C18/Model.v, which C07 only reads) "
         "tied to ingestRegistration over the real liveness testers by the liveness-stack lane",
+        "coq/C07/ModelLife.v (the phantom subnet file in force as station state; reload replaces it on success only) tied to "
+        "NewRegistrationManager / OnReload / parseRegMessage / ingestRegistration by the lifecycle lane; the selection oracle values "
+        "there come from the real phantoms loader applied to the file the history says is in force",
     ]
     ctx.cov["rule"] = ("decision table of the admission procedure: admissible base rows with every single-factor flip, a "
                        "covering array over all 20 factors (strength 2 quick / 3 thorough), the full product of the 13 core "
@@ -507,9 +511,9 @@ def run(ctx):
                        "(same phantom from several clients, cache expiry, ClearExpired, dual-stack, pre-scanned, detector-sourced, "
                        "every error class with either verdict); a case is non-trivial if hash-distinct, counted per outcome class")
     ctx.coq_props(extra_dirs=["C06", "C18"])
-    rc, out = ctx.coq_make(["C07/Examples.vo", "C07/ExamplesLive.vo", "C07/Refuted.vo"])
+    rc, out = ctx.coq_make(["C07/Examples.vo", "C07/ExamplesLive.vo", "C07/ExamplesLife.vo", "C07/Refuted.vo"])
     if rc != 0:
-        ctx.broken("examples", "coq/C07/Examples.v / ExamplesLive.v (non-vacuity) or Refuted.v (witnesses of the open findings) no longer checks: %s" % out[-400:])
+        ctx.broken("examples", "coq/C07/Examples.v / ExamplesLive.v / ExamplesLife.v (non-vacuity) or Refuted.v (witnesses of the open findings) no longer checks: %s" % out[-400:])
     run_table(ctx)
     # the liveness verdict through the real tester stack, over histories sharing one cache state
     c07_live.run_live(ctx, sys.modules[__name__])
